@@ -402,6 +402,14 @@ def run_e2e(case, res):
                                     icodes=icodes, origin=case["origin"])
         base_opts = ["--ff=AMBER", "--noopt", "--nodebump"]
     text = build.pdb_text(atoms)
+    input_name = "in.pdb"
+    if case.get("cif"):
+        # the same structure as an mmCIF entry (the writer marks the end of
+        # such an output with a "#" line)
+        from . import c10
+
+        text = c10.cif_text([atoms], 0)
+        input_name = "in.cif"
     # the --clean short cut writes its records from a branch of its own
     bases = [base_opts] if case.get("box") else [base_opts, ["--clean"]]
     for base_opts, w, k in [(b, w, k) for b in bases for w in (False, True)
@@ -412,12 +420,43 @@ def run_e2e(case, res):
                 opts.append("--whitespace")
             if k:
                 opts.append("--keep-chain")
-            r = pipeline.run(text, opts)
+            r = pipeline.run(text, opts, input_name=input_name)
             res["evals"] += 1
             if not r.ok:
                 cls = case["label"]
                 res["events"][f"e2e-run-failed:{cls}"] = 1
                 continue
+            # the whole file through pdb2pqr's own reader (what dx2cube
+            # does): every record, nothing else, no exception
+            import io as _io
+
+            from pdb2pqr import io as pio
+
+            n_model = len([a for a in r.bm.atoms
+                           if id(a) not in {id(m) for m in (r.missed or [])}])
+            src = "cif" if case.get("cif") else "pdb"
+            lay = "whitespace" if w else "fixed"
+            try:
+                back = pio.read_pqr(_io.StringIO(r.pqr_text))
+            except Exception as exc:  # noqa: BLE001 - reported
+                back = None
+                sig = f"C08/e2e/own-reader-raises/{src}-input/{lay}"
+                if case["label"] not in ("plain", "icode"):
+                    sig += f"/{case['label']}"
+                if sig not in res["seen"]:
+                    res["seen"].add(sig)
+                    res["violations"].append({
+                        "sig": sig, "detail": {"error": str(exc)[:120],
+                                               "opts": opts}})
+            if back is not None and len(back) != n_model:
+                sig = f"C08/e2e/own-reader-atom-count/{src}-input/{lay}"
+                if sig not in res["seen"]:
+                    res["seen"].add(sig)
+                    res["violations"].append({
+                        "sig": sig, "detail": {"read": len(back),
+                                               "model": n_model,
+                                               "opts": opts}})
+            res["events"][f"own-reader-whole-file:{src}:{lay}"] = 1
             missed = {id(a) for a in (r.missed or [])}
             model = [a for a in r.bm.atoms if id(a) not in missed]
             lines = [l for l in r.pqr_text.splitlines()
@@ -480,4 +519,7 @@ def enumerate_cases(tier, seed):
         cases.append({"mode": "e2e", "label": label, "numbers": numbers,
                       "icodes": icodes, "origin": list(origin)})
     cases.append({"mode": "e2e", "label": "water-box-10125-atoms", "box": 15})
+    for label, numbers, icodes, origin in e2e[:1] + e2e[4:5]:
+        cases.append({"mode": "e2e", "label": label, "numbers": numbers,
+                      "icodes": icodes, "origin": list(origin), "cif": True})
     return cases
